@@ -9,7 +9,10 @@ Inductive case :=
 | CCanAppend (s : schema) (n other : node) (obs : res bool)
 | CCheck (s : schema) (n : node) (obs : bool)                       (* True = check() did not raise *)
 | CValidContent (s : schema) (ty : nat) (cs : list node) (obs obs_create_checked : bool)
-| CMatchAt (s : schema) (n : node) (index : nat) (obs : res nat).
+| CMatchAt (s : schema) (n : node) (index : nat) (obs : res nat)
+(* the marks each node type allows, as the schema object holds them, are what the node specs declare
+   (`marks` key; default: every mark for inline content, none otherwise) *)
+| CSchemaMarks (s : schema).
 
 Definition agree (c : case) : bool :=
   match c with
@@ -19,13 +22,33 @@ Definition agree (c : case) : bool :=
   | CCheck s n obs => Bool.eqb (check s n) obs
   | CValidContent s ty cs obs obs2 => Bool.eqb (valid_content s ty cs) obs && Bool.eqb (valid_content s ty cs) obs2
   | CMatchAt s n i obs => res_eqb Nat.eqb (content_match_at s n i) obs
+  | CSchemaMarks s =>
+    forallb (fun nt => match compile_markset (s_marks s) nt with
+                       | Some r => opt_eqb (list_eqb Nat.eqb) r (nt_markset nt)
+                       | None => false end) (s_nodes s)
   end.
 
 (* the independent validator: Proofs.ValidityProofs.accepts / valid_children / valid *)
 Definition prefix_ok (s : schema) (n : node) (from : nat) : bool :=
   match match_types s (node_start_state s n) (types_of s (firstn from (node_content n))) with Some _ => true | None => false end.
 
-Definition holds (c : case) : bool :=
+(* the schema as its node specs DECLARE it: every node type's allowed-mark set recomputed from the `marks` key, so that
+   the predicates below judge the implementation's answers against the schema's definition of validity even when the
+   compiled schema object holds something else *)
+Definition declared_ntype (ms : list mtype) (nt : ntype) : ntype :=
+  match compile_markset ms nt with
+  | Some r =>
+    {| nt_name := nt_name nt; nt_attrs := nt_attrs nt; nt_start := nt_start nt; nt_inline := nt_inline nt;
+       nt_inline_content := nt_inline_content nt; nt_markset := r; nt_groups := nt_groups nt;
+       nt_isolating := nt_isolating nt; nt_atom_spec := nt_atom_spec nt; nt_defining_ctx := nt_defining_ctx nt;
+       nt_defining_content := nt_defining_content nt; nt_code := nt_code nt; nt_marks_spec := nt_marks_spec nt |}
+  | None => nt
+  end.
+Definition declared (s : schema) : schema :=
+  {| s_nodes := List.map (declared_ntype (s_marks s)) (s_nodes s); s_marks := s_marks s; s_states := s_states s;
+     s_top := s_top s; s_text := s_text s |}.
+
+Definition holds_on (c : case) : bool :=
   match c with
   | CCanReplace s n f t r st en obs =>
     if prefix_ok s n f then
@@ -53,4 +76,17 @@ Definition holds (c : case) : bool :=
   | CCheck s n obs => Bool.eqb obs (valid s n)
   | CValidContent s ty cs obs obs2 => Bool.eqb obs (valid_children s ty cs) && Bool.eqb obs2 obs
   | CMatchAt s n i obs => Bool.eqb (is_ok obs) (prefix_ok s n i) && negb (is_internal obs)
+  | CSchemaMarks s => true
   end.
+
+Definition redeclare (c : case) : case :=
+  match c with
+  | CCanReplace s n f t r st en obs => CCanReplace (declared s) n f t r st en obs
+  | CCanReplaceWith s n f t ty ms obs => CCanReplaceWith (declared s) n f t ty ms obs
+  | CCanAppend s n o obs => CCanAppend (declared s) n o obs
+  | CCheck s n obs => CCheck (declared s) n obs
+  | CValidContent s ty cs obs obs2 => CValidContent (declared s) ty cs obs obs2
+  | CMatchAt s n i obs => CMatchAt (declared s) n i obs
+  | CSchemaMarks s => CSchemaMarks s
+  end.
+Definition holds (c : case) : bool := holds_on (redeclare c).
